@@ -82,3 +82,15 @@ impl Default for Rt {
         Self::new()
     }
 }
+
+pub fn progress_path(id: &str) -> std::path::PathBuf {
+    crate::evidence::verif_root()
+        .join("target")
+        .join(format!(".progress-{id}"))
+}
+
+/// Record what an input sweep is doing right now (read by the parent process
+/// if the sweep dies abnormally).
+pub fn progress(id: &str, what: &str) {
+    let _ = std::fs::write(progress_path(id), what);
+}
